@@ -49,6 +49,19 @@ def square_vector(J, d=3):
     return np.array([J[0] + i * J[1] - J[2] / (i + 1) for i in range(d)])
 
 
+def identity(J):
+    """returns the very array it was handed (an order probe): the collected values must not alias a re-used buffer"""
+    return J
+
+
+def first_two(J):
+    return J[:2]
+
+
+def reversed_view(J):
+    return J[::-1]
+
+
 def quiet(f):
     with contextlib.redirect_stdout(io.StringIO()), contextlib.redirect_stderr(io.StringIO()):
         return f()
@@ -141,6 +154,19 @@ def run(ctx):
             except Exception as ex:
                 ctx.impl_violation(f"{name}: raised {type(ex).__name__}: {ex}", dict(case=name, samples=samples, n_jobs=nj))
             ctx.case((name,), nontrivial=True)
+    # ---- functions that return (a view of) the triple they were given
+    P = pdg.get_non_symmetric_triangular_sampling_points(6)[0]
+    for fn in (identity, first_two, reversed_view):
+        for nj in (1, 2, 5):
+            name = f"compute_phase_diagram({fn.__name__}, N={len(P)}, n_jobs={nj})"
+            try:
+                data = quiet(lambda: pdg.compute_phase_diagram(P, fn, {}, n_jobs=nj))
+                want = np.array([np.array(fn(J)) for J in P]).T
+                if np.shape(data) != want.shape or not np.array_equal(data, want):
+                    ctx.impl_violation(f"{name}: parallel result differs from the serial evaluation (a function returning its argument or a view of it)", dict(case=name, fn=fn.__name__, n_jobs=nj))
+            except Exception as ex:
+                ctx.impl_violation(f"{name}: raised {type(ex).__name__}: {ex}", dict(case=name, fn=fn.__name__, n_jobs=nj))
+            ctx.case((name,), nontrivial=True)
     # ---- every call returns fresh objects: overwrite the first result in place, call again
     for scheme, fn in (("plain", pdg.get_non_symmetric_triangular_sampling_points), ("symmetric", pdg.get_triangular_sampling_points)):
         for s in (2, 5, 10):
@@ -157,6 +183,7 @@ def run(ctx):
             if not np.array_equal(p2, keep) or (1 if scheme == "plain" else len(t2)) != ntri:
                 ctx.impl_violation(f"{name}: a second call returns different values after the first result was overwritten in place: the calls share state", dict(case=name, scheme=scheme, samples=s))
             ctx.case((name,), nontrivial=True)
+    core.history_check(ctx, "import numpy as np\nfrom koala import example_graphs as eg, voronization as vz, graph_utils as gu, quasicrystals as qc, phase_diagrams as pdg, hamiltonian as ham\nfrom koala.flux_finder import flux_finder as ff\n\ndef _canon(l):\n    parts = [l.vertices.positions.ravel(), l.edges.indices.ravel().astype(float), l.edges.crossing.ravel().astype(float)]\n    return np.concatenate(parts)\ndef _plaq(l):\n    out = []\n    for p in l.plaquettes:\n        out += [float(len(p.edges))] + [float(x) for x in p.edges] + [float(x) for x in p.directions] + [float(x) for x in p.vertices] + [float(x) for x in p.center]\n    return np.array(out)\n_pts = np.random.default_rng(123).uniform(size=(14, 2))\n", ["pdg.get_triangular_sampling_points(7)[0]", "pdg.get_non_symmetric_triangular_sampling_points(10)[0]"], label="sampling call")
     # ---- parallel map
     pts, _ = pdg.get_non_symmetric_triangular_sampling_points(5 if quick else 7)
     jobs = [1, 2, 3, 5, 8, 16] if quick else list(range(1, 17))
